@@ -171,6 +171,11 @@ class Model:
             raise AnalysisError(
                 f"only {len(files)} python files under {root}; floor is {FILE_FLOOR}"
             )
+        # files that exist only in the overlay (a variant that adds a module)
+        on_disk = {os.path.relpath(p_, self.repo) for p_ in files}
+        for rel_ in sorted(self.overlay):
+            if rel_ not in on_disk and rel_.startswith(PKG + os.sep) and rel_.endswith(".py"):
+                files.append(os.path.join(self.repo, rel_))
         for path in files:
             rel = os.path.relpath(path, self.repo)
             modname = rel[:-3].replace(os.sep, ".")
